@@ -81,6 +81,11 @@ def _directed():
              ["jmp", 9], ["set"] + R2 + [50], ["set"] + R2 + [60], ["beq"] + R0 + R1 + [-1]]]),
         sc([[["set"] + R0 + [2147483647], ["set"] + R1 + [1], ["add"] + R2 + R0 + R1]], hw=True),  # overflow
         F25_WITNESS,
+        # re-declaring an array (same size) gives fresh undefined entries, also across subroutines
+        sc([[["set"] + R0 + [2], ["array"] + R0 + [0], ["set"] + R1 + [1], ["store"] + R1 + [0] + R1,
+             ["array"] + R0 + [0], ["load"] + R2 + [0] + R1],
+            [["set"] + R0 + [2], ["array"] + R0 + [0], ["set"] + R1 + [0], ["store"] + R0 + [0] + R1, ["ret_arr", 0]],
+            [["set"] + R0 + [2], ["array"] + R0 + [0], ["ret_arr", 0]]]),
     ]
     # qalloc/qfree bookkeeping with holes in the physical pool (non-LIFO frees, re-allocation)
     Q1, Q2 = [2, 1], [2, 2]
@@ -145,7 +150,7 @@ def run(ctx):
                 "across subroutines); "
                 "a scenario is non-trivial when at least 3 instructions were executed; distinct by scenario JSON")
     rng = ctx.rng
-    n_random = 90000 if ctx.thorough else 7500
+    n_random = 90000 if ctx.thorough else 5000
     drv = ctx.driver
 
     def differs(c):
@@ -215,7 +220,7 @@ def run(ctx):
         if len([f for f in res.failures if f["kf"] is None]) >= stop_after_failures:
             break
     # several Executor instances in one process, subroutines advanced interleaved across them
-    n_multi = 5000 if ctx.thorough else 400
+    n_multi = 5000 if ctx.thorough else 250
     for k in range(n_multi):
         check(H.multi_scenario(rng, rng.choice([15, 30, 60]), "c04"), "multi-executor")
         if len([f for f in res.failures if f["kf"] is None]) >= stop_after_failures:
